@@ -253,7 +253,9 @@ Record routecase : Type := mk_routecase {
   rc_walked : list string;                (* keys of the map Process returned for the root *)
   rc_processed : list json;               (* ids of all messages Process was called with *)
   rc_reported : list json;                (* ids of all messages reported as emitted *)
-  rc_quiet : bool
+  rc_quiet : bool;
+  rc_down : bool                          (* the store was down throughout: no state advances (neither do the logs kept
+                                             in the states), routing, reports and feedback go on all the same *)
 }.
 
 (** the model runs with the reserved names read from the source of the tree
@@ -287,7 +289,7 @@ Definition logs_agree (m : mmap) (logs : list (string * list json)) : bool :=
            (map (fun e : string * mrec => (fst e, log_of (snd e))) m) logs.
 
 Definition route_agrees (c : routecase) : bool :=
-  let s0 := mk_svc (crew_with (rc_ids c) (rc_broken c)) (crew_with (rc_ids c) (rc_broken c)) true in
+  let s0 := mk_svc (crew_with (rc_ids c) (rc_broken c)) (crew_with (rc_ids c) (rc_broken c)) (negb (rc_down c)) in
   let f := feed_fifo (rc_services c) (200 * 100) (submit (rc_root c) s0) in
   is_nil (fd_pending f)
   && logs_agree (mem (fd_svc f)) (rc_logs c)
@@ -303,10 +305,12 @@ Definition route_ok_under (who : json -> list string) (c : routecase) : bool :=
   let '(deliveries, processed) := expect who 64 1 (rc_root c) in
   rc_quiet c
   && list_eqb String.eqb (map fst (rc_logs c)) (rc_ids c)
-  && forallb (fun (l : string * list json) =>
-                perm_eqb json_eqb (snd l)
-                         (map fst (filter (fun d : json * string => String.eqb (snd d) (fst l)) deliveries)))
-             (rc_logs c)
+  && (if rc_down c
+      then forallb (fun l : string * list json => is_nil (snd l)) (rc_logs c)
+      else forallb (fun (l : string * list json) =>
+                      perm_eqb json_eqb (snd l)
+                               (map fst (filter (fun d : json * string => String.eqb (snd d) (fst l)) deliveries)))
+                   (rc_logs c))
   && list_eqb String.eqb (rc_walked c) (who (rc_root c))
   && perm_eqb json_eqb (rc_processed c) processed
   && perm_eqb json_eqb (rc_reported c) (tl processed).
